@@ -54,6 +54,29 @@ CHECKS.update({
             "Each program is re-run with (a) suffixed names, (b) every clause using the query's variable names, (c) $X/$Y swapped; answers (up to renaming), order and output must be identical.", E2_NOTE, "§2 E2, §3 C11"),
 })
 
+E3_NOTE = ("Trusted base: the reference built-ins harness/src/refbuiltins.rs (written from the statements: checked i64 / f64 folds, Rust's own "
+           "orderings, list functions on the harness term type) used by the reference interpreter; the value domains of harness/src/gen3.rs. "
+           "Inputs on which the statement is silent (overflow, integer /0, unbound or non-numeric arguments, unbound list tails) are counted as skipped.outside.")
+
+CHECKS.update({
+    "C12": ("e2", "model_checking", "bounded-exhaustive argument tuples (1-4 numbers over 19 values) x 4 operations x presentation modes, via the real solver, vs reference fold",
+            "Every 1-3-tuple over 11 integers and 8 floats (extremes, 2^53+1, -0.0, inf) and 4-tuples over 8 values, for add/subtract/multiply/divide, given literally, "
+            "through one- and two-step variable chains, on either side of `=`, against equal / unequal / other-typed constants, and through the infix parser.", E3_NOTE, "§2 E3, §3 C12"),
+    "C14": ("e2", "model_checking", "all operand pairs over a 28-value domain x 5 relations x chains x spellings, via the real solver, vs reference ordering",
+            "28 operands (integer extremes, 2^53+-1, floats incl. -0.0 and infinities, unicode / spaced / empty atoms, non-constants, unbound, `$_`) in all pairs, five relations, "
+            "literal and through 1-2 step chains, named form via API and named + infix forms through the parser; the unbound operand is exposed in the head to show nothing is bound.", E3_NOTE, "§2 E3, §3 C14"),
+    "C15": ("e2", "model_checking", "all element sequences <= 5 over 8 element kinds through every list builder; decoded structure and well-formedness checked",
+            "37 449 element sequences x {constructor without bar, constructor with 4 kinds of tail, parser with/without tail, renaming}; each built list is decoded and must hold "
+            "exactly the elements (a trailing list is spliced only where documented) and be well formed (counts n..1, empty-list terminator, tail flag only on the last node). "
+            "The lists built by append / include / exclude are checked through the solver in the same run.", E3_NOTE, "§2 E3, §3 C15"),
+    "C16": ("e2", "model_checking", "all input tuples (1-3 over 17 values, 4 over 6) via the real solver vs reference concatenation",
+            "Inputs: atoms, numbers, complex terms, [], nested / empty-element lists, lists with tails bound to lists (one and two steps), variables bound to each; "
+            "Out unbound, equal, different, or a pattern.", E3_NOTE, "§2 E3, §3 C16"),
+    "C17": ("e2", "model_checking", "bounded-exhaustive argument tuples for count / include / exclude / functor / join via the real solver vs reference functions",
+            "count over the list domain incl. bound tails and constants; include/exclude: 9 filter patterns x all lists <= 3 over 6 elements (+ bound tails, bound elements), filter variable "
+            "exposed in the head; functor: 10 terms x 10 patterns x 8 arities; join: all word/punctuation sequences <= 3 as arguments, list, list behind a variable, bound elements.", E3_NOTE, "§2 E3, §3 C17"),
+})
+
 NOT_YET = {
 }
 
@@ -97,7 +120,7 @@ def main():
         "engines": [
             {"name": "e1", "path": "harness/src/e1.rs", "serves_properties": ["C06", "C07", "C08", "C09", "C13"],
              "kind_free_text": "explicit-state BFS over real substitution sets; every transition is a real unify call judged against a reference unifier"},
-            {"name": "e2", "path": "harness/src/e2.rs", "serves_properties": ["C01", "C02", "C03", "C04", "C05", "C10", "C11"],
+            {"name": "e2", "path": "harness/src/e2.rs", "serves_properties": ["C01", "C02", "C03", "C04", "C05", "C10", "C11", "C12", "C14", "C15", "C16", "C17"],
              "kind_free_text": "bounded-exhaustive programs x queries x call histories executed on the real engine, each call compared with a reference interpreter"},
         ],
         "checks": checks,
